@@ -11,6 +11,7 @@ from __future__ import annotations
 
 import dataclasses
 import gc
+import itertools
 import weakref
 from dataclasses import dataclass, field
 
@@ -59,12 +60,21 @@ class RL(ASTNode):
 
 @dataclass(frozen=True)
 class RS(RL):
-    pass
+    def __bool__(self) -> bool:  # falsy in a boolean context
+        return False
 
 
 @dataclass(frozen=True)
 class RP(ASTNode):
     c: ASTNode | None = None
+
+    def __len__(self) -> int:  # falsy in a boolean context although it may hold a child
+        return 0
+
+
+@dataclass(frozen=True)
+class RT(ASTNode):  # tuple parent, used by the scripted same-id-pair family (the BFS universe keeps to chains)
+    items: tuple[ASTNode, ...] = ()
 
 
 ORIG = [NO_ORIGIN, zoo.O_A01]
@@ -485,6 +495,106 @@ def many_twins(rec: Rec, dsize: int, n: int = 12):
     NODE_REGISTRY.clear()
 
 
+PAIR_MAKERS = ["replace-noncompared", "replace-nothing", "replace-value", "roundtrip-after-detach_self", "rebuild-after-detach_self", "detach-then-twin"]
+PLACEMENTS = ["old,new", "new,old", "old,P(new)", "P(old),new", "new,P(old)", "x,old,new", "old,x,new", "P(old),P(new)"]
+AFTER = ["detach", "detach_self", "replace-reversed", "duplicate", "roundtrip", "readonly", "detach-twice"]
+
+
+def same_id_pairs(rec: Rec, dsize: int):
+    """Scripted family beyond the chain universe of the BFS: ONE tree that holds both a node that was replaced away (or
+    detached) and the live node that now carries its id - in either order, directly or below a parent - and then every
+    registry-relevant operation on that tree.  Oracle: an identity-based reference registry; lookup by id must return
+    exactly the referenced objects."""
+    config.ID_DIGEST_SIZE = dsize
+    for maker, place, after in itertools.product(PAIR_MAKERS, PLACEMENTS, AFTER):
+        NODE_REGISTRY.clear()
+        rec.count("transitions"); rec.count("traces"); rec.count("evaluations"); rec.count("states")
+        case = {"digest": dsize, "scenario": "same-id-pair", "maker": maker, "placement": place, "after": after}
+        ref: dict = {}  # id string -> object expected under it
+
+        def reg(n):
+            ref[n.id] = n
+
+        def unreg(n):
+            if ref.get(n.id) is n:
+                del ref[n.id]
+
+        old = RL(1, origin=zoo.O_A01)
+        reg(old)
+        if maker == "replace-noncompared":
+            unreg(old); new = old.replace(nc=7); reg(new)
+        elif maker == "replace-nothing":
+            unreg(old); new = old.replace(); reg(new)
+        elif maker == "replace-value":
+            unreg(old); new = old.replace(v=2); reg(new)
+        elif maker == "roundtrip-after-detach_self":
+            d = old.as_dict(); old.detach_self(); unreg(old); new = RL.as_obj(d); reg(new)
+        elif maker == "rebuild-after-detach_self":
+            old.detach_self(); unreg(old); new = RL(1, origin=zoo.O_A01); reg(new)
+        else:
+            old.detach(); unreg(old); new = RL(1, origin=zoo.O_A01); reg(new)
+        if new is old or (new.id != old.id and maker != "replace-value"):  # a changed value gives a new id: kept as the control case
+            rec.violation("C03|same-id-pair|set-up", case, f"set-up did not produce two objects with one id ({old.id} / {new.id})")
+            continue
+        x = RL(3)
+        reg(x)
+
+        def P(n):
+            q = RP(c=n)
+            reg(q)
+            return q
+
+        items = {"old,new": lambda: (old, new), "new,old": lambda: (new, old), "old,P(new)": lambda: (old, P(new)), "P(old),new": lambda: (P(old), new),
+                 "new,P(old)": lambda: (new, P(old)), "x,old,new": lambda: (x, old, new), "old,x,new": lambda: (old, x, new),
+                 "P(old),P(new)": lambda: (P(old), P(new))}[place]()
+        t = RT(items=items)
+        reg(t)
+        members = [t] + [i.node for i in t.dfs()]
+        keep = None
+        try:
+            if after in ("detach", "detach-twice"):
+                for n in members:
+                    unreg(n)
+                t.detach()
+                if after == "detach-twice":
+                    t.detach()
+            elif after == "detach_self":
+                unreg(t)
+                t.detach_self()
+            elif after == "replace-reversed":
+                unreg(t)
+                keep = t.replace(items=tuple(reversed(t.items)))
+                reg(keep)
+            elif after == "duplicate":
+                keep = t.duplicate()
+                for n in [keep] + [i.node for i in keep.dfs()]:
+                    if any(n is m for m in members):
+                        rec.violation("C03|same-id-pair|dup-shares", case, "duplicate() shares a node object with the original")
+                    reg(n) if n.id not in ref else None
+            elif after == "roundtrip":
+                keep = RT.as_obj(t.as_dict())
+                if keep is not t:
+                    rec.violation("C03|same-id-pair|rt-not-reused", case, "as_obj did not return the registered object under the serialized id")
+            else:
+                readonly_battery(t)
+        except Exception as e:  # noqa: BLE001
+            rec.violation(f"C03|same-id-pair|raises|{type(e).__name__}", case, f"{after} raised {type(e).__name__}: {str(e)[:120]}")
+            continue
+        rec.outcome(f"same-id-pair:{after}")
+        ids = {n.id for n in members} | set(ref)
+        if keep is not None:
+            ids |= {keep.id} | {i.node.id for i in keep.dfs()}
+        for i in sorted(ids):
+            exp = ref.get(i)
+            got = ASTNode.get_any(i)
+            if got is not exp:
+                what = "nothing" if got is None else ("another object" if exp is not None else "an object that should not be registered")
+                rec.violation("C03|same-id-pair|lookup", case, f"after {after}: get_any({i}) returned {what}; expected {'the live registered node' if exp is not None else 'None'}")
+                break
+        del t, members, keep, items, old, new, x
+    NODE_REGISTRY.clear()
+
+
 def plan(tier, seed):
     cfgs = []
     for ds in DIGESTS[tier]:
@@ -497,6 +607,7 @@ def run_shard(cfg):
     m = Model(cfg["digest"])
     explore(m, cfg["depth"], rec, cfg, procs=cfg.get("procs", 1))
     many_twins(rec, cfg["digest"])
+    same_id_pairs(rec, cfg["digest"])
     rec.bound["digest_sizes"] = sorted(set(rec.bound.get("digest_sizes", [])) | {cfg["digest"]})
     rec.extra["colliding_values"] = {str(cfg["digest"]): list(m.vals)}
     return rec.result()
@@ -504,6 +615,9 @@ def run_shard(cfg):
 
 def replay(case, cfg):
     rec = Rec(cfg)
+    if case.get("scenario") == "same-id-pair":
+        same_id_pairs(rec, int(case["digest"]))
+        return rec.result()["violations"]
     if case.get("scenario") == "many-twins":
         many_twins(rec, int(case["digest"]), int(case.get("n", 12)))
         return rec.result()["violations"]
